@@ -27,10 +27,13 @@ pub fn spec() -> CheckSpec {
     ],
     real_components: "deno_graph new_source_with_text / ModuleTextSource::try_get_original_bytes / serialisation; deno_media_type decoding (encoding_rs); builder and loader seam",
     stub_components: "Loader (serves and logs the byte strings), other seams simulated",
-    quick_cases: 40000,
-    thorough_cases: 2000000,
+    quick_cases: 30000,
+    thorough_cases: 1500000,
     run_case,
-    systematic: |_| 0,
+    systematic: |t| match t {
+      Tier::Quick => 6000,
+      Tier::Thorough => torn_family_size(),
+    },
   }
 }
 
@@ -213,7 +216,56 @@ fn encode(text: &str, enc: u32, bom: bool) -> Vec<u8> {
   }
 }
 
-pub fn run_case(tape: &mut Tape, _tier: Tier, _p: &CaseParams) -> CaseOutcome {
+const TORN_OFFSETS: u64 = 64;
+
+fn torn_family_size() -> u64 {
+  SAMPLES.len() as u64 * 4 * 3 * 2 * LABELS.len() as u64 * 2 * TORN_OFFSETS
+}
+
+/// Systematic family: every sample x media x encoding x BOM x label x origin,
+/// torn (truncated) at every offset up to 64 - reads that stop mid code point
+/// or mid code unit.
+fn torn_member(idx: u64, tier: Tier) -> Tape {
+  let idx = if tier == Tier::Quick {
+    idx.wrapping_mul(104_729) % torn_family_size()
+  } else {
+    idx % torn_family_size()
+  };
+  let mut i = idx;
+  let mut next = |n: u64| {
+    let v = (i % n) as u32;
+    i /= n;
+    v
+  };
+  let sample = next(SAMPLES.len() as u64);
+  let media = next(4);
+  let enc = next(3);
+  let bom = next(2);
+  let label = next(LABELS.len() as u64);
+  let remote = next(2);
+  let offset = next(TORN_OFFSETS);
+  Tape::replay(crate::tape::Tapes {
+    // draw order of `run_inner` on the world stream
+    world: vec![sample, media, enc, bom, label, remote],
+    // fault kind 1 = truncate, then the offset
+    faults: vec![1, offset],
+    ..Default::default()
+  })
+}
+
+pub fn run_case(tape: &mut Tape, tier: Tier, p: &CaseParams) -> CaseOutcome {
+  match p.systematic_index {
+    Some(i) => {
+      let mut sub = torn_member(i, tier);
+      let mut out = run_inner(&mut sub);
+      out.count("torn_family_members", 1);
+      out
+    }
+    None => run_inner(tape),
+  }
+}
+
+fn run_inner(tape: &mut Tape) -> CaseOutcome {
   let mut out = CaseOutcome::default();
   let sample = *tape.pick(Stream::World, &SAMPLES);
   // 0 js, 1 ts, 2 json root, 3 json by attribute, 4 registry file
